@@ -313,7 +313,8 @@ def cases(tier, seed):
         yield {"mesh": gen.random_mesh(rng, 40), "kind": ["n_face", "n_node", "n_edge"][int(rng.integers(0, 3))],
                "dtype": ["float64", "float64", "float32", "int64", "bool"][int(rng.integers(0, 5))],
                "lead": [int(x) for x in rng.integers(2, 4, size=int(rng.integers(0, 3)))],
-               "program": [allops[int(j)] for j in rng.integers(0, len(allops), size=depth)], "dseed": int(rng.integers(0, 10**6))}
+               "program": [allops[int(j)] for j in rng.integers(0, len(allops), size=depth)], "dseed": int(rng.integers(0, 10**6)),
+               "backend": ["numpy", "numpy", "numpy", "dask_data", "dask_both"][int(rng.integers(0, 5))]}
 
 
 def shadow_of(a):
@@ -322,7 +323,11 @@ def shadow_of(a):
     return xr.DataArray(np.array(a.values), dims=a.dims, coords={k: v.variable for k, v in a.coords.items()}, name=a.name, attrs=dict(a.attrs))
 
 
-def same_values(r, s):
+F32 = [False]  # the case's data are single precision (results of some reductions are float64 all the same)
+
+
+def same_values(r, s, exact=True):
+    """exact=False (dask-backed operands): blocked reductions add in another order - floats to 1e-12 relative."""
     import xarray as xr
 
     if not isinstance(s, xr.DataArray):
@@ -335,7 +340,12 @@ def same_values(r, s):
     if rv.dtype != sv.dtype:
         return False, "dtype %s vs shadow %s" % (rv.dtype, sv.dtype)
     if rv.dtype.kind in "fc":
-        if not np.array_equal(rv, sv, equal_nan=True):
+        if not exact:
+            scale = float(np.nanmax(np.abs(sv))) if sv.size and np.any(np.isfinite(sv)) else 1.0
+            rt = 1e-5 if (rv.dtype.itemsize <= 4 or F32[0]) else 1e-12
+            if not np.allclose(rv, sv, rtol=rt, atol=rt * max(scale, 1.0), equal_nan=True):
+                return False, "values differ (max abs %r)" % float(np.nanmax(np.abs(rv.astype(float) - sv.astype(float))))
+        elif not np.array_equal(rv, sv, equal_nan=True):
             return False, "values differ (max abs %r)" % float(np.nanmax(np.abs(rv.astype(float) - sv.astype(float))))
     elif not np.array_equal(rv, sv):
         return False, "values differ"
@@ -390,6 +400,14 @@ def run_case(ctx, case):
     coords = {"t": np.arange(lead[0]) * 1.5} if lead else None
     a = U.UxDataArray(data.copy(), dims=ldims + [case["kind"]], coords=coords, uxgrid=g, name="v")
     s = xr.DataArray(data.copy(), dims=ldims + [case["kind"]], coords=coords, name="v")
+    backend = case.get("backend", "numpy")
+    F32[0] = case["dtype"] == "float32"
+    if backend == "dask_both":
+        g.chunk()
+    if backend in ("dask_data", "dask_both"):
+        a = a.chunk({case["kind"]: max(1, n_el // 2)})
+        s = s.chunk({case["kind"]: max(1, n_el // 2)})  # the shadow is plain xarray on dask too: what xarray itself rejects there is not a case
+    ctx.observe("backend_" + backend)
     grid_now = g
     done = []
     changed_elem = False
@@ -426,7 +444,7 @@ def run_case(ctx, case):
                 # gives for the same indexer (node / edge indexing is inclusive - more elements come back - and is not compared)
                 try:
                     s2 = apply_own(nm, s, other, np.random.default_rng([case["dseed"], step]))
-                    okv, why = same_values(r, s2)
+                    okv, why = same_values(r, s2, exact=backend == "numpy")
                     ctx.check("values_equal_shadow", okv, sig, dict(det, why=why))
                 except Exception as e:
                     ctx.observe("shadow_rejected:" + nm)
@@ -464,7 +482,7 @@ def run_case(ctx, case):
         if not isinstance(s2, xr.DataArray):
             ctx.observe("result_not_an_array")
             break
-        okv, why = same_values(r, s2) if isinstance(r, xr.DataArray) else (False, "not an array: %s" % type(r).__name__)
+        okv, why = same_values(r, s2, exact=backend == "numpy") if isinstance(r, xr.DataArray) else (False, "not an array: %s" % type(r).__name__)
         ctx.check("values_equal_shadow", okv, sig, dict(det, why=why))
         if not invariants(ctx, U, r, sig, det):
             break
